@@ -673,19 +673,30 @@ func (e *Engine) loadFromKey(st *State, v ssa.Value, key string, known bool) {
 
 // addrExprKey: a syntactic key for field addresses over an SSA base pointer ("" if not of that form).
 func (e *Engine) addrExprKey(v ssa.Value) string {
-	path := ""
-	for {
-		fa, ok := v.(*ssa.FieldAddr)
-		if !ok {
-			break
+	switch x := v.(type) {
+	case *ssa.FieldAddr:
+		base := e.addrExprKey(x.X)
+		if base == "" {
+			base = e.vid(x.X)
 		}
-		path = fmt.Sprintf(".f%d%s", fa.Field, path)
-		v = fa.X
+		return fmt.Sprintf("%s.f%d", base, x.Field)
+	case *ssa.IndexAddr:
+		// element of a slice that is itself loaded through a keyed address; same index register
+		var base string
+		if ld, ok := x.X.(*ssa.UnOp); ok && ld.Op == token.MUL {
+			if k := e.addrExprKey(ld.X); k != "" {
+				base = "*(" + k + ")"
+			}
+		}
+		if base == "" {
+			base = e.vid(x.X)
+		}
+		if _, isConst := x.Index.(*ssa.Const); isConst {
+			return fmt.Sprintf("%s[%s]", base, x.Index.String())
+		}
+		return fmt.Sprintf("%s[%s]", base, e.vid(x.Index))
 	}
-	if path == "" {
-		return ""
-	}
-	return e.vid(v) + path
+	return ""
 }
 
 func (e *Engine) unop(fr *frame, st *State, x *ssa.UnOp) {
@@ -1147,6 +1158,9 @@ func (e *Engine) unsafeUse(fr *frame, x *ssa.Convert) {
 
 func (e *Engine) store(fr *frame, st *State, x *ssa.Store) {
 	st.loadMemo = nil
+	if e.StoreHook != nil && fr != nil && fr.check {
+		e.StoreHook(e, st, x)
+	}
 	if _, isAddr := x.Addr.(*ssa.FieldAddr); !isAddr {
 		if _, isIdx := x.Addr.(*ssa.IndexAddr); !isIdx {
 			if _, isAl := x.Addr.(*ssa.Alloc); !isAl {
